@@ -346,3 +346,61 @@ Proof.
   intros Hr Hl Hs Hk Ht Hc.
   apply (et0_turc_sunshine_nonneg real_orc realK x Hr (ext_nonneg_real _ _ Hl) Hs Hk Ht Hc).
 Qed.
+
+(* ---------------------------------------------------------------- *)
+(* bundles for Prop_C08 (one Print Assumptions each)                  *)
+Definition methods_nonneg_stmt : Prop :=
+  (forall x : et0_in (T:=R),
+     0 <= ti_verd x -> Forall (fun v => 0 <= v) (ti_fkf x) -> Forall (fun v => 0 <= v) (ti_fku x) ->
+     0 <= to_precap (@et0_haude R RNum x)) /\
+  (forall x : et0_in (T:=R), 0 <= ti_etnull x -> 0 <= kc_of x -> 0 <= to_precap (@et0_file R RNum x)) /\
+  (forall (O : Orc R) (K : Consts R) (x : et0_in (T:=R)),
+     0 < ti_rad x -> 0 <= ti_kcoa x -> -22 <= ti_temp x -> 0 <= kc_of x ->
+     0 <= to_precap (@et0_turc R RNum O K x) /\ 0 < 150 * (ti_temp x + 123)) /\
+  (forall (O : Orc R) (K : Consts R) (x : et0_in (T:=R)),
+     ti_rad x <= 0 -> 0 <= d_EXT (@day_length R RNum O K (IZR (ti_tag x)) (ti_lat x)) -> 0 <= ti_sund x ->
+     0 <= ti_kcoa x -> -22 <= ti_temp x -> 0 <= kc_of x ->
+     0 <= to_precap (@et0_turc R RNum O K x) /\
+     0 < (if ti_crop x then 150 * (ti_temp x - 1 + 123) else 150 * (ti_temp x + 123))) /\
+  (forall (O : Orc R) (K : Consts R) (x : et0_in (T:=R)),
+     0 <= kc_of x -> 0 <= to_et0 (@et0_pt R RNum O K x) /\ 0 <= to_precap (@et0_pt R RNum O K x)) /\
+  (forall (O : Orc R) (K : Consts R) (x : et0_in (T:=R)),
+     0 <= kc_of x -> 0 <= to_et0 (@et0_pm R RNum O K x) /\ 0 <= to_precap (@et0_pm R RNum O K x)).
+
+Lemma methods_nonneg_lemma : methods_nonneg_stmt.
+Proof.
+  unfold methods_nonneg_stmt. repeat split.
+  - exact et0_haude_nonneg.
+  - exact et0_file_nonneg.
+  - intros. apply et0_turc_rad_nonneg; assumption.
+  - intros. apply (et0_turc_rad_nonneg O K x); assumption.
+  - intros. apply et0_turc_sunshine_nonneg; assumption.
+  - intros. apply (et0_turc_sunshine_nonneg O K x); assumption.
+  - intros. apply et0_pt_nonneg; assumption.
+  - intros. apply et0_pt_nonneg; assumption.
+  - intros. apply et0_pm_nonneg; assumption.
+  - intros. apply et0_pm_nonneg; assumption.
+Qed.
+
+Definition true_functions_stmt : Prop :=
+  orc_ok real_orc /\
+  (forall tag lat : R, -90 < lat < 90 -> 0 <= d_EXT (@day_length R RNum real_orc realK tag lat)) /\
+  (forall x : et0_in (T:=R),
+     ti_rad x <= 0 -> -90 < ti_lat x < 90 -> 0 <= ti_sund x -> 0 <= ti_kcoa x -> -22 <= ti_temp x ->
+     0 <= kc_of x -> 0 <= to_precap (@et0_turc R RNum real_orc realK x)).
+
+Lemma true_functions_lemma : true_functions_stmt.
+Proof. exact (conj real_orc_ok (conj ext_nonneg_real et0_turc_sunshine_nonneg_real)). Qed.
+
+Definition definedness_stmt : Prop :=
+  (forall (O : Orc R) (x : et0_in (T:=R)),
+     orc_ok O -> ti_temp x + 2373 / 10 <> 0 -> ti_alti x < 293 / (65 / 10000) -> 0 < @pt_den R RNum O x) /\
+  (forall deltsat psych rsurf wind : R,
+     0 < deltsat -> 0 < psych -> 0 <= rsurf -> 0 <= wind -> 0 < @pm_den R RNum deltsat psych rsurf wind) /\
+  (forall (O : Orc R) (t alti : R),
+     orc_ok O -> t + 2373 / 10 <> 0 -> alti < 293 / (65 / 10000) ->
+     0 < @deltsat_of R RNum O t /\ 0 < 665 / 1000000 * @atmpress_of R RNum O alti) /\
+  (forall (O : Orc R) (x : et0_in (T:=R)), 5 / 10 <= @wind2m R RNum O x).
+
+Lemma definedness_lemma : definedness_stmt.
+Proof. exact (conj pt_den_pos (conj pm_den_pos (conj pm_terms_pos wind2m_floor))). Qed.
